@@ -255,7 +255,12 @@ fn gen_frame(r: &mut Rng, tr: &str, dir: Dir) -> Vec<u8> {
                 1 => { let bc = *r.pick(&[251usize, 253, 255]); let q = bc * 8; let mut p = vec![0x0F, r.u8(), r.u8(), (q >> 8) as u8, q as u8, bc as u8]; p.extend(r.bytes(bc)); p }
                 _ => { let bc = *r.pick(&[246usize, 248, 250, 252, 254]); let mut p = vec![0x17, 0, 1, 0, 2, r.u8(), r.u8(), 0, (bc / 2) as u8, bc as u8]; p.extend(r.bytes(bc)); p }
             },
-            Dir::Rsp => { let bc = *r.pick(&[252usize, 253, 254, 255]); let mut p = vec![*r.pick(&[1u8, 2, 3, 4, 0x17]), bc as u8]; p.extend(r.bytes(bc)); p }
+            Dir::Rsp => if r.bool() {
+                let bc = *r.pick(&[252usize, 253, 254, 255]); let mut p = vec![*r.pick(&[1u8, 2, 3, 4, 0x17]), bc as u8]; p.extend(r.bytes(bc)); p
+            } else {
+                // read-FIFO-queue style response (0x18) whose two-byte count has an extreme low byte
+                let c = *r.pick(&[0x00FDusize, 0x00FF, 0x01FD, 0x01FE, 0x01FF, 0x0100, 0x03FD]); let mut p = vec![0x18u8, (c >> 8) as u8, c as u8]; p.extend(r.bytes(c)); p
+            }
         };
         return tcp_frame(r.u16(), r.u8(), &p);
     }
@@ -425,6 +430,15 @@ pub fn generate(prop: &str, tier: &str, seed: u64, out: &mut impl Write) {
                     w!("tcpenc req {tid} {id} {s} {l} {}", fill_tok(r));
                     w!("tcpdec req {}", hex_of(&tcp_frame(tid, id, &pdu)));
                     w!("#@ C05 req {tid} {id} {s}");
+                }
+                if !rtu && i % 97 == 5 {
+                    // a custom response with the read-FIFO-queue code and a count whose low byte is extreme
+                    let c = *r.pick(&[0x00FDusize, 0x01FD, 0x01FE, 0x01FF, 0x03FD]);
+                    let mut d = vec![(c >> 8) as u8, c as u8]; d.extend(r.bytes(c));
+                    let s = format!("CUS N18 {}", hex_of(&d));
+                    w!("tcpenc rsp {tid} {id} {s} {} {}", 1 + d.len() + 7, fill_tok(r));
+                    w!("tcpdec rsp {}", hex_of(&tcp_frame(tid, id, &[vec![0x18u8], d.clone()].concat())));
+                    w!("#@ C05 rsp {tid} {id} {s}");
                 }
                 let (m, s) = if i % 5 == 0 {
                     // exception responses, every frameable function code over time
@@ -598,8 +612,9 @@ pub fn generate(prop: &str, tier: &str, seed: u64, out: &mut impl Write) {
         }
         "C09" => {
             // PDU lengths at and beyond 65535, where `pdu_len + 1` no longer fits the 16-bit length field
-            for (n, field) in [(65534usize, 65535u32), (65535, 0), (65535, 65535), (65536, 1), (65536, 0), (65538, 3), (65538, 65535)] {
-                let mut b = vec![0x12u8, 0x34, 0, 0, (field >> 8) as u8, field as u8, 0x09, 0x18, 0xFF, (n as u32 - 3) as u8];
+            for (n, field, proto) in [(65534usize, 65535u32, 0u8), (65535, 0, 0), (65535, 65535, 0), (65536, 1, 0), (65536, 0, 0), (65538, 3, 0), (65538, 65535, 0),
+                                      (65535, 0, 1), (65536, 1, 1), (65538, 3, 1), (65534, 65535, 1), (65535, 0, 2)] {
+                let mut b = vec![0x12u8, 0x34, 0, proto, (field >> 8) as u8, field as u8, 0x09, 0x18, 0xFF, (n as u32 - 3) as u8];
                 b.resize(7 + n, 0x5A);
                 let h = hex_of(&b);
                 w!("tcpext {n} {h}");
@@ -876,7 +891,8 @@ pub fn generate(prop: &str, tier: &str, seed: u64, out: &mut impl Write) {
                 let need = (c + 7) / 8;
                 let sl = (need as i64 + *r.pick(&[-2i64, -1, 0, 0, 0, 1, 5])).max(0) as usize;
                 let ol = (c as i64 + *r.pick(&[-1i64, 0, 0, 0, 1, 8])).max(0) as usize;
-                w!("unpack {} {c} {ol}", hex_of(&r.bytes(sl)));
+                let src = if r.below(3) == 0 { let mut v = r.bytes(sl); for x in v.iter_mut() { if r.bool() { *x = 0; } } v } else { r.bytes(sl) };
+                w!("unpack {} {c} {ol}{}", hex_of(&src), if r.bool() { " T" } else { "" });
             }
             for n in [0usize, 1, 7, 8, 9, 65535, 65536, 1 << 40] { w!("packedlen {n}"); }
         }
